@@ -160,7 +160,7 @@ macro_rules! parts {
                 Tier::Thorough => cfgs(&[(1, 1), (2, 1), (8, 1), (9, 1), (16, 1), (17, 1), (20, 2)], &[Some(0)]),
             },
             alphabet: &alpha,
-            depth: tier.pick(4, 6),
+            depth: tier.pick(5, 6),
             seconds: tier.pick(35.0, 2400.0),
             validated: true,
             nontrivial: Some("lockstep_transitions"),
